@@ -213,7 +213,7 @@ def execute(ctx):
         st['stdout'] = out.getvalue()[-400:]
 
     verdict = sim.run(scenario)
-    if verdict[0] in ('deadlock', 'timeout'):
+    if verdict[0] in ('deadlock', 'timeout', 'livelock'):
         from simkit.harness import hang_signature
         sg, msg = hang_signature(verdict)
         ctx.violation('2', sg, msg, verdict[1])
